@@ -3,6 +3,7 @@
 Copies a sub-agent's verified seeded change from its scratch worktree into /verif/seeded/."""
 import json, os, shutil, sys
 wt, n, name, prop, needs = sys.argv[1:6]
+rnd = sys.argv[6] if len(sys.argv) > 6 else "third"
 src = f"{wt}/_out/mutant{n}"
 dst = f"/verif/seeded/{name}"
 v = json.load(open(src + "/verify.json"))
@@ -15,7 +16,7 @@ if os.path.isdir(dst + "/demo"):
 shutil.copytree(src + "/demo", dst + "/demo")
 meta = {
     "property": prop,
-    "origin": "independent sub-agent (third round: told which ideas were already taken, incl. the repaired defects), given only the property text and a scratch worktree",
+    "origin": "independent sub-agent (" + rnd + " round: told which ideas were already taken, incl. the repaired defects), given only the property text and a scratch worktree",
     "needs_to_manifest": needs,
     "confirmed_by_me": dict(how=f"in the scratch worktree {wt} (removed afterwards): demo/run.sh on the clean tree; git apply patch.diff; unit tests of the four crates; selium-std feature tests; the five e2e tests with generated certificates; demo/run.sh with the patch", **v),
 }
